@@ -53,6 +53,13 @@ def catalogue():
                   ("Path", pathlib.PurePosixPath), ("Pattern", re.Pattern), ("date", datetime.date), ("UUID", uuid.UUID)):
         out.append((f"NewType({nm})", typing.NewType(f"NT_{nm}", c)))
         out.append((f"TypeAliasType({nm})", compat.TypeAliasType(f"AL_{nm}", c)))
+    # two layers, in every order ("after NewType and alias resolution" does not say which comes first)
+    for nm, c in (("int", int), ("str", str), ("date", datetime.date), ("Decimal", decimal.Decimal), ("list[int]", list[int])):
+        nt, al = typing.NewType(f"NT2_{nm}", c), compat.TypeAliasType(f"AL2_{nm}", c)
+        out.append((f"Alias(NewType({nm}))", compat.TypeAliasType(f"ALNT_{nm}", nt)))
+        out.append((f"NewType(Alias({nm}))", typing.NewType(f"NTAL_{nm}", al)))
+        out.append((f"Alias(Alias({nm}))", compat.TypeAliasType(f"ALAL_{nm}", al)))
+        out.append((f"NewType(NewType({nm}))", typing.NewType(f"NTNT_{nm}", nt)))
     return out
 
 
